@@ -26,6 +26,48 @@ _TAIL = (
 _MFN_POST = "\n\n    def _upload(self, new_contents, servermap):\n"
 _MFV_POST = "\n\n    def _upload(self, new_contents):\n"
 
+_RETRY_OLD = (
+    "        def _retry(f):\n"
+    "            f.trap(UncoordinatedWriteError)\n"
+    "            # Uh oh, it broke. We're allowed to trust the servermap for our\n"
+    "            # first try, but after that we need to update it. It's\n"
+    "            # possible that we've failed due to a race with another\n"
+    "            # uploader, and if the race is to converge correctly, we\n"
+    "            # need to know about that upload.\n"
+    "            d2 = defer.maybeDeferred(backoffer, self, f)\n"
+    "            d2.addCallback(lambda ignored:\n"
+    "                           self._modify_and_retry(modifier,\n"
+    "                                                  backoffer, False))\n"
+    "            return d2\n"
+    "        d.addErrback(_retry)\n"
+    "        return d\n")
+_DL_RETRY_OLD = (
+    "        def _maybe_retry(failure):\n"
+    "            failure.trap(NotEnoughSharesError)\n\n"
+    "            d = self.get_best_mutable_version()\n"
+    "            d.addCallback(self._record_size)\n"
+    "            d.addCallback(lambda version: version.download_to_data())\n"
+    "            return d\n\n"
+    "        d.addErrback(_maybe_retry)\n"
+    "        return d\n")
+_CREATED_OLD = (
+    "        def _created(child):\n"
+    "            entries = {name: (child, metadata)}\n"
+    "            a = Adder(self, entries, overwrite=overwrite,\n"
+    "                      create_readonly_node=self._create_readonly_node)\n"
+    "            d = self._node.modify(a.modify)\n"
+    "            d.addCallback(lambda res: child)\n"
+    "            return d\n"
+    "        d.addCallback(_created)\n"
+    "        return d\n")
+_DN_READ_OLD = (
+    "        if self._node.is_mutable():\n"
+    "            # use the IMutableFileNode API.\n"
+    "            d = self._node.download_best_version()\n"
+    "        else:\n"
+    "            d = download_to_data(self._node)\n"
+    "        d.addCallback(self._unpack_contents)\n")
+
 MUTANTS = [
     # ---- C13.1 public operations enter through the serialiser
     M("modify-bypasses-serializer", FN,
@@ -288,7 +330,112 @@ MUTANTS = [
     M("benign-read-download-via-two-locals", FN,
       "        d = r.download(consumer, offset, size)\n        return d\n",
       "        d = r.download(consumer, offset, size)\n        done = d\n        return done\n", None),
+    # ---- C13.10 methods split off an awaited function are awaited too
+    M("retry-errback-extracted-without-return", FN,      # seeded C13-F
+      _RETRY_OLD,
+      "        d.addErrback(self._back_off_and_retry, modifier, backoffer)\n        return d\n\n\n"
+      "    def _back_off_and_retry(self, f, modifier, backoffer):\n"
+      "        f.trap(UncoordinatedWriteError)\n"
+      "        d2 = defer.maybeDeferred(backoffer, self, f)\n"
+      "        d2.addCallback(lambda ignored:\n"
+      "                       self._modify_and_retry(modifier, backoffer, False))\n", "C13.10"),
+    M("retry-errback-extracted-retry-not-chained", FN,
+      _RETRY_OLD,
+      "        d.addErrback(self._back_off_and_retry, modifier, backoffer)\n        return d\n\n\n"
+      "    def _back_off_and_retry(self, f, modifier, backoffer):\n"
+      "        f.trap(UncoordinatedWriteError)\n"
+      "        d2 = defer.maybeDeferred(backoffer, self, f)\n"
+      "        def _again(ignored):\n"
+      "            self._modify_and_retry(modifier, backoffer, False)\n"
+      "        d2.addCallback(_again)\n"
+      "        return d2\n", "C13.10"),
+    M("download-retry-extracted-without-return", FN,
+      _DL_RETRY_OLD,
+      "        d.addErrback(self._retry_with_write_servermap)\n        return d\n\n\n"
+      "    def _retry_with_write_servermap(self, failure):\n"
+      "        failure.trap(NotEnoughSharesError)\n"
+      "        d = self.get_best_mutable_version()\n"
+      "        d.addCallback(self._record_size)\n"
+      "        d.addCallback(lambda version: version.download_to_data())\n", "C13.10"),
+    M("modify-once-split-publish-step-not-returned", FN,
+      "        d = self._try_to_download_data()\n        def _apply(old_contents):\n",
+      "        d = self._try_to_download_data()\n        d.addCallback(self._apply_modifier, modifier, first_time)\n"
+      "        d.addCallback(self._publish_modified)\n        return d\n\n"
+      "    def _apply_modifier(self, old_contents, modifier, first_time):\n"
+      "        return modifier(old_contents, self._servermap, first_time)\n\n"
+      "    def _publish_modified(self, new_contents):\n"
+      "        if new_contents is not None:\n"
+      "            self._upload(MutableData(new_contents))\n\n"
+      "    def _modify_once_unsplit(self, modifier, first_time):\n"
+      "        d = self._try_to_download_data()\n        def _apply(old_contents):\n", "C13.10"),
+    M("create-subdirectory-link-extracted-without-return", DN,
+      _CREATED_OLD,
+      "        d.addCallback(self._link_new_subdirectory, name, metadata, overwrite)\n        return d\n\n"
+      "    def _link_new_subdirectory(self, child, name, metadata, overwrite):\n"
+      "        entries = {name: (child, metadata)}\n"
+      "        a = Adder(self, entries, overwrite=overwrite,\n"
+      "                  create_readonly_node=self._create_readonly_node)\n"
+      "        self._node.modify(a.modify)\n"
+      "        return child\n", "C13.10"),
+    M("benign-retry-errback-extracted", FN,
+      _RETRY_OLD,
+      "        d.addErrback(self._back_off_and_retry, modifier, backoffer)\n        return d\n\n\n"
+      "    def _back_off_and_retry(self, f, modifier, backoffer):\n"
+      "        f.trap(UncoordinatedWriteError)\n"
+      "        d2 = defer.maybeDeferred(backoffer, self, f)\n"
+      "        d2.addCallback(lambda ignored:\n"
+      "                       self._modify_and_retry(modifier, backoffer, False))\n"
+      "        return d2\n", None),
+    M("benign-download-retry-extracted", FN,
+      _DL_RETRY_OLD,
+      "        d.addErrback(self._retry_with_write_servermap)\n        return d\n\n\n"
+      "    def _retry_with_write_servermap(self, failure):\n"
+      "        failure.trap(NotEnoughSharesError)\n"
+      "        return self.get_best_mutable_version().addCallback(self._record_size).addCallback(\n"
+      "            lambda version: version.download_to_data())\n", None),
+    M("benign-create-subdirectory-link-extracted", DN,
+      _CREATED_OLD,
+      "        d.addCallback(self._link_new_subdirectory, name, metadata, overwrite)\n        return d\n\n"
+      "    def _link_new_subdirectory(self, child, name, metadata, overwrite):\n"
+      "        entries = {name: (child, metadata)}\n"
+      "        a = Adder(self, entries, overwrite=overwrite,\n"
+      "                  create_readonly_node=self._create_readonly_node)\n"
+      "        d = self._node.modify(a.modify)\n"
+      "        d.addCallback(lambda res: child)\n"
+      "        return d\n", None),
+    # ---- C13.11 directory reads enter through the node's serialiser
+    M("dirnode-read-through-readable-version", DN,      # seeded C13-E
+      _DN_READ_OLD,
+      "        d = self._node.get_best_readable_version()\n        d.addCallback(download_to_data)\n"
+      "        d.addCallback(self._unpack_contents)\n", "C13.11"),
+    M("dirnode-read-downloads-version-from-servermap", DN,
+      "            d = self._node.download_best_version()\n",
+      "            d = self._node.get_servermap(MODE_READ)\n"
+      "            d.addCallback(lambda smap: self._node.download_version(smap, smap.best_recoverable_version()))\n",
+      "C13.11", edits=[(DN, "from allmydata.mutable.common import NotWriteableError\n",
+                        "from allmydata.mutable.common import NotWriteableError, MODE_READ\n")]),
+    M("dirnode-read-version-object-through-alias", DN,
+      "            d = self._node.download_best_version()\n",
+      "            node = self._node\n            d = node.get_readable_version()\n"
+      "            d.addCallback(lambda version: version.download_to_data())\n", "C13.11"),
+    M("dirnode-has-child-peeks-unserialised", DN,
+      "        return self._node.get_current_size()\n",
+      "        d = self._node.get_best_readable_version()\n        d.addCallback(lambda v: v.get_size())\n        return d\n",
+      "C13.11"),
+    M("benign-dirnode-read-node-alias", DN,
+      "            d = self._node.download_best_version()\n",
+      "            node = self._node\n            d = node.download_best_version()\n", None),
+    M("benign-dirnode-read-conditional-expression", DN,
+      _DN_READ_OLD,
+      "        d = self._node.download_best_version() if self._node.is_mutable() else download_to_data(self._node)\n"
+      "        d.addCallback(self._unpack_contents)\n", None),
+    M("benign-dirnode-size-of-best-version", DN,
+      "        return self._node.get_current_size()\n",
+      "        return self._node.get_size_of_best_version()\n", None),
     # ---- vanished anchor
+    M("vanish-dirnode-serialised-read", DN,
+      "            d = self._node.download_best_version()\n", "            d = download_to_data(self._node)\n",
+      "ANALYSIS-ERROR"),
     M("vanish-create-from-cap", NM,
       "    def create_from_cap(self, writecap, readcap=None,", "    def create_from_capX(self, writecap, readcap=None,",
       "ANALYSIS-ERROR"),
